@@ -188,14 +188,16 @@ package objectsets
 //@   at SetRevision#2 assert [C07] forall k int :: 0 <= k && k < len(prevListOf(objectSet)) ==> readRev(k) < arg0
 //@   sink SubResourceWriter.Update requires [C07] true
 
-//@ props C04,C15
+//@ props C04,C05,C15
 // A delegated phase counts as torn down only when its phase object was confirmed absent (the read or the delete
 // answered NotFound in this call) or is not controlled by the ObjectSet (orphaned): deleting it and waiting until it is
 // gone - a phase object that is merely terminating is not done.
 //@ func package-operator.run/internal/controllers/objectsets.(*objectSetRemotePhaseReconciler).Teardown
 //@   after IsControlledBy#1 ghost phaseCtrlByOS() := result
 //@   sink Client.Update#1 requires [C04,C15] true
-//@   sink Client.Delete#1 requires [C04,C15] phaseCtrlByOS()
+// (C05: the phase object is deleted only while this very ObjectSet controls it - a phase object of the same name that
+//  belongs to somebody else is left alone)
+//@   sink Client.Delete#1 requires [C04,C05,C15] phaseCtrlByOS()
 //@   ensures [C04,C15] cleanupDone && err == nil ==> lastGet() == 4 || lastGet() == 3 || !phaseCtrlByOS() || lastDeleteGone()
 
 //@ props C04
